@@ -7,6 +7,7 @@ all paths to any exit.  A call with a hook of adapter type T pushes the callee's
 DiffHook impl of T (resolved structurally from the type: `&mut D`, NoFinishHook<D>, Replace<D>, Compact<..,D>,
 Patience<..,D>, Capture), so summaries compose without monomorphised MIR.
 """
+import re
 from .core import RuleResult
 from .facts import term_str, targs, const_int
 from .callgraph import peel, ty_head
@@ -121,6 +122,7 @@ class Proto:
         self.sum_any = {}
         self._b1_done = False
         self._active = set()
+        self.closure_ok = set()      # closures with hook calls that are driven through a known std adapter
 
     # ---- roots -----------------------------------------------------------
     def _root_of(self, fn):
@@ -136,11 +138,35 @@ class Proto:
                                   "single-root summary does not apply" % len(seen), fn.line))
         return None
 
+    STAR_ADAPTERS = ("try_for_each", "for_each", "try_fold", "fold", "all", "any")
+    OPT_ADAPTERS = ("map", "and_then", "map_or", "map_or_else", "unwrap_or_else", "or_else", "then", "map_err")
+
+    def hook_closures(self, c):
+        """closures (with hook calls in their bodies) among the generic arguments of a callee"""
+        out = []
+        for a in (c or {}).get("args", []) or []:
+            if isinstance(a, dict) and a.get("k") == "closure":
+                cf = self.prog.fn(a.get("path", ""))
+                if cf is not None and cf.mir and self._has_hook_call(cf):
+                    out.append(cf)
+        return out
+
+    def closure_adapter(self, c):
+        """'star' (called any number of times, stops at the first error), 'opt' (at most once) or None"""
+        if not c or c.get("krate") not in ("core", "std", "alloc"):
+            return None
+        meth = c.get("method") or c.get("path", "").rsplit("::", 1)[-1]
+        if c.get("trait") in ("std::iter::Iterator", "std::iter::DoubleEndedIterator") and meth in self.STAR_ADAPTERS:
+            return "star"
+        if c.get("path", "").startswith(("std::option::Option::", "std::result::Result::", "std::bool::")) and meth in self.OPT_ADAPTERS:
+            return "opt"
+        return None
+
     def hook_fns(self):
         """Functions that can produce hook events: have a root parameter, or make DiffHook calls."""
         out = []
         for fn in self.prog.fn_list:
-            if not fn.mir or fn.is_derived():
+            if not fn.mir or fn.is_derived() or fn.kind == "Closure":
                 continue
             if self.root.get(fn.path) is not None or self._has_hook_call(fn):
                 out.append(fn)
@@ -150,6 +176,9 @@ class Proto:
         for bb, t in fn.mir.calls():
             c = fn.mir.callee(t)
             if c and (c.get("trait") == HOOK or self._callee_root(c) is not None):
+                return True
+            if c and fn.kind != "Closure" and any(a.get("k") == "closure" for a in c.get("args", []) if isinstance(a, dict)) \
+                    and self.hook_closures(c):
                 return True
         return False
 
@@ -300,6 +329,25 @@ class Proto:
         sub = (lambda ty: subst(ty, bind)) if bind is not None else (lambda ty: ty)
         if c.get("trait") == HOOK:
             return self.eval_type(sub(c["self_ty"]), c["method"], root, mode, depth + 1)
+        cfs = self.hook_closures(c) if any(isinstance(a, dict) and a.get("k") == "closure" for a in c.get("args", [])) else []
+        if cfs:
+            kind = self.closure_adapter(c)
+            if kind is None or len(cfs) != 1 or depth > 6:
+                return {BAD + ":closure"}
+            cf = cfs[0]
+            self.closure_ok.add(cf.path)
+            # a closure shares its parent's generics: its hook calls are expressed on the parent's root
+            inner = self._flow(cf, mode, bind if bind is not None else {}, root, depth + 1)
+            if not inner:
+                inner = {""}
+            acc = {""} | set(inner)
+            if kind == "star":
+                for _ in range(4):
+                    nxt = acc | cat(acc, inner)
+                    if nxt == acc:
+                        break
+                    acc = nxt
+            return acc
         g = self._callee_fn(c)
         if g is not None:
             groot = self.root.get(g.path)
@@ -380,8 +428,11 @@ class Proto:
                         "std::ops::Try", "std::ops::FromResidual")):
                     continue
                 if c and c.get("krate") in ("core", "std", "alloc") and not c.get("trait") == HOOK:
-                    # constructing a result through std helpers (Ok(..) is an aggregate, not a call)
-                    continue
+                    # constructing a result through std helpers (Ok(..) is an aggregate, not a call) -- unless the helper
+                    # drives a closure that talks to a hook (`iter.try_for_each(|op| op.apply_to_hook(d))`): that result
+                    # is a hook result like any other
+                    if not (any(isinstance(a, dict) and a.get("k") == "closure" for a in c.get("args", [])) and self.hook_closures(c)):
+                        continue
                 rec = B1Site(self, fn, bb, t)
                 rec.analyse()
                 recs.append(rec)
@@ -757,7 +808,7 @@ def rule_B3(prog):
                 path_short(fn.path), role), file=fn.file, line=fn.line)
     # closures must not talk to hooks (invocation count would be unknown)
     for fn in prog.fn_list:
-        if fn.kind == "Closure" and fn.mir:
+        if fn.kind == "Closure" and fn.mir and fn.path not in pr.closure_ok:
             for bb, t in fn.mir.calls():
                 c = fn.mir.callee(t)
                 if c and c.get("trait") == HOOK:
@@ -1181,44 +1232,76 @@ def rule_B5(prog):
             problems = []
             if len(cl) != 1:
                 problems.append("%d cleanup_diff_ops calls" % len(cl))
-            if len(ap) != 1:
-                problems.append("%d apply_to_hook calls" % len(ap))
-            if len(fin) != 1:
-                problems.append("%d inner finish calls" % len(fin))
-            if others:
-                problems.append("direct emission calls %s" % [c["method"] for _, _, c in others])
-            if not problems:
-                in_loop = [body for h, body in loops if ap[0][0] in body]
-                if not in_loop:
-                    problems.append("apply_to_hook is not inside a loop")
-                else:
-                    body = in_loop[0]
-                    if cl[0][0] in body or not m.dominates(cl[0][0], ap[0][0]):
-                        problems.append("cleanup does not precede the replay loop")
-                    if fin[0][0] in body:
-                        problems.append("inner finish is inside the replay loop")
-                    if ap[0][0] in m.reach_from([fin[0][1]["target"]] if fin[0][1]["target"] is not None else []):
-                        problems.append("replay reachable after inner finish")
-                    # plain iteration over the whole buffer: into_iter(&self.ops) -> next, no adapter, no branch skipping
-                    its = [(bb, t) for bb, t in m.calls() if (m.callee(t) or {}).get("trait") in ("std::iter::IntoIterator", "std::iter::Iterator")]
-                    meths = [(m.callee(t) or {}).get("method") for _, t in its]
-                    if sorted(meths) != ["into_iter", "next"]:
-                        problems.append("replay loop uses iterator methods %s (expected plain into_iter/next)" % meths)
+            # the replay written as `self.ops.iter().try_for_each(|op| op.apply_to_hook(d))?`
+            tfe = None
+            if len(ap) == 0:
+                for bb_, t_ in m.calls():
+                    c_ = m.callee(t_) or {}
+                    if c_.get("trait") == "std::iter::Iterator" and c_.get("method") == "try_for_each":
+                        cp = [a.get("path") for a in c_.get("args", []) if isinstance(a, dict) and a.get("k") == "closure"]
+                        cf = prog.fn(cp[0]) if cp else None
+                        if cf is not None and cf.mir:
+                            cap = _calls_to(cf.mir, "DiffOp::apply_to_hook")
+                            csw = [b for b in cf.mir.blocks if b["term"]["k"] == "switch"]
+                            src = term_str(m.expand(m.resolve_operand(t_["args"][0]), depth=3))
+                            if len(cap) == 1 and not csw and "ops" in src and re.search(r"\b(iter|into_iter)\(", src) and \
+                                    not re.search(r"\b(filter|skip|take|step_by|rev|skip_while|take_while|filter_map)\(", src):
+                                tfe = (bb_, t_)
+            if tfe is not None:
+                if len(fin) != 1:
+                    problems.append("%d inner finish calls" % len(fin))
+                if others:
+                    problems.append("direct emission calls %s" % [c["method"] for _, _, c in others])
+                if not problems:
+                    if not m.dominates(cl[0][0], tfe[0]):
+                        problems.append("cleanup does not precede the replay")
+                    if not m.dominates(tfe[0], fin[0][0]):
+                        problems.append("inner finish is not preceded by the replay")
+                    if any(tfe[0] in body for h, body in loops):
+                        problems.append("the replay is inside a loop")
+                r.ob(not problems, "Compact::finish: cleanup -> self.ops.iter().try_for_each(apply_to_hook) -> inner finish%s" % (
+                    "" if not problems else " VIOLATED: " + "; ".join(problems)))
+                if problems:
+                    r.find(fn.path, "compact-finish", "Compact::finish shape violated: " + "; ".join(problems), file=fn.file, line=fn.line)
+            else:
+                if len(ap) != 1:
+                    problems.append("%d apply_to_hook calls" % len(ap))
+                if len(fin) != 1:
+                    problems.append("%d inner finish calls" % len(fin))
+                if others:
+                    problems.append("direct emission calls %s" % [c["method"] for _, _, c in others])
+                if not problems:
+                    in_loop = [body for h, body in loops if ap[0][0] in body]
+                    if not in_loop:
+                        problems.append("apply_to_hook is not inside a loop")
                     else:
-                        src = m.resolve_operand([t for _, t in its if m.callee(t)["method"] == "into_iter"][0]["args"][0])
-                        s = term_str(src)
-                        if "ops" not in s:
-                            problems.append("loop iterates %s, not self.ops" % s)
-                    # every iteration that yields Some must reach apply_to_hook: in the loop body, the only
-                    # conditional exits are the iterator's None and the error branch of apply_to_hook
-                    sw = [b for b in body if m.blocks[b]["term"]["k"] == "switch"]
-                    if len(sw) > 2:
-                        problems.append("replay loop has %d conditional branches (ops may be skipped)" % len(sw))
-            r.ob(not problems, "Compact::finish: cleanup -> loop{apply_to_hook over self.ops} -> inner finish%s" % (
-                "" if not problems else " VIOLATED: " + "; ".join(problems)))
-            if problems:
-                r.find(fn.path, "compact-finish", "Compact::finish shape violated: " + "; ".join(problems), file=fn.file,
-                       line=fn.line)
+                        body = in_loop[0]
+                        if cl[0][0] in body or not m.dominates(cl[0][0], ap[0][0]):
+                            problems.append("cleanup does not precede the replay loop")
+                        if fin[0][0] in body:
+                            problems.append("inner finish is inside the replay loop")
+                        if ap[0][0] in m.reach_from([fin[0][1]["target"]] if fin[0][1]["target"] is not None else []):
+                            problems.append("replay reachable after inner finish")
+                        # plain iteration over the whole buffer: into_iter(&self.ops) -> next, no adapter, no branch skipping
+                        its = [(bb, t) for bb, t in m.calls() if (m.callee(t) or {}).get("trait") in ("std::iter::IntoIterator", "std::iter::Iterator")]
+                        meths = [(m.callee(t) or {}).get("method") for _, t in its]
+                        if sorted(meths) != ["into_iter", "next"]:
+                            problems.append("replay loop uses iterator methods %s (expected plain into_iter/next)" % meths)
+                        else:
+                            src = m.resolve_operand([t for _, t in its if m.callee(t)["method"] == "into_iter"][0]["args"][0])
+                            s = term_str(src)
+                            if "ops" not in s:
+                                problems.append("loop iterates %s, not self.ops" % s)
+                        # every iteration that yields Some must reach apply_to_hook: in the loop body, the only
+                        # conditional exits are the iterator's None and the error branch of apply_to_hook
+                        sw = [b for b in body if m.blocks[b]["term"]["k"] == "switch"]
+                        if len(sw) > 2:
+                            problems.append("replay loop has %d conditional branches (ops may be skipped)" % len(sw))
+                r.ob(not problems, "Compact::finish: cleanup -> loop{apply_to_hook over self.ops} -> inner finish%s" % (
+                    "" if not problems else " VIOLATED: " + "; ".join(problems)))
+                if problems:
+                    r.find(fn.path, "compact-finish", "Compact::finish shape violated: " + "; ".join(problems), file=fn.file,
+                           line=fn.line)
         for name in ("equal", "delete", "insert", "replace"):
             fn = prog.fn(comp["methods"].get(name, ""))
             if fn is None:
